@@ -458,11 +458,35 @@ def run_replay(pid, path):
     data = json.load(open(path))
     f = data.get("failure")
     if f is None:
-        print("replay file names a broken obligation, not an input:")
+        # the file names obligations that no longer checked (regenerated constant / definition, theorem, first disagreeing
+        # operation): check THOSE again against the tree as it is now
+        print("replay file names a broken obligation, not an input; re-checking it:")
+        regen_errors, _ = regenerate()
+        pr = prove(pid)
+        still = []
         for b in data.get("broken", []):
-            print("  ", b.get("kind"), b.get("what"), b.get("line", ""))
-        print("VIOLATION property=%s replay=%s no-failing-input-found" % (pid, path))
-        return 1
+            kind = b.get("kind")
+            if kind == "regeneration":
+                if regen_errors:
+                    still.append("regeneration: " + regen_errors[0][:200])
+            elif kind == "proof":
+                if pr["failed"]:
+                    still.append("proof: " + pr["failed"][0][:200])
+            elif kind == "correspondence" and b.get("line") and pr.get("driver_ok"):
+                a = core.run_line_impl(b["line"])
+                m = core.run_driver([b["line"]])[0]
+                if a != m:
+                    still.append("correspondence: model and implementation still disagree on %s" % b["line"][:160])
+            elif kind == "correspondence":
+                if not pr.get("driver_ok"):
+                    still.append("correspondence: driver unavailable")
+        for x in still[:5]:
+            print("  ", x)
+        if still:
+            print("VIOLATION property=%s replay=%s no-failing-input-found" % (pid, path))
+            return 1
+        print("replay: the recorded obligations check again on this tree")
+        return 0
     what = mod.replay(f["oracle"], f["args"])
     if what:
         print("VIOLATION property=%s replay=%s" % (pid, path))
